@@ -7,13 +7,26 @@ def is_self_attr(node, attr):
     return isinstance(node, ast.Attribute) and isinstance(node.value, ast.Name) and node.value.id == "self" and node.attr == attr
 
 
-def lock_facts(func, lock_attr, shared_attrs, sibling_methods):
-    """Walk a method body. Returns dict(accesses=[(what, inside)], regions=n, unknown_with=[...])."""
+def lock_facts(func, lock_attr, shared_attrs, sibling_methods, helpers=None):
+    """Walk a method body. Returns dict(accesses=[(what, inside)], regions=n, unknown_with=[...]).
+    Calls of other methods of the class (`helpers`: name -> FunctionDef, the public operations excluded) are followed:
+    the helper's body is analysed as if it stood at the call.  A nested function or lambda is accepted when its body
+    touches neither the shared attributes, the lock nor another method (a predicate, a key function)."""
     accesses, regions = [], [0]
+    helpers = helpers or {}
 
-    def walk(node, depth):
+    def pure(node):
+        for sub in ast.walk(node):
+            if isinstance(sub, ast.Attribute) and isinstance(sub.value, ast.Name) and sub.value.id == "self" \
+                    and (sub.attr in shared_attrs or sub.attr == lock_attr or sub.attr in helpers or sub.attr in sibling_methods):
+                return False
+        return True
+
+    def walk(node, depth, stack):
         if isinstance(node, (ast.FunctionDef, ast.AsyncFunctionDef, ast.Lambda)) and node is not func:
-            raise GenError("nested function in %s: lock coverage not analysable" % func.name)
+            if not pure(node):
+                raise GenError("nested function in %s touches shared state: lock coverage not analysable" % func.name)
+            return
         if isinstance(node, ast.With):
             locks = [it for it in node.items if is_self_attr(it.context_expr, lock_attr)]
             if locks:
@@ -21,20 +34,32 @@ def lock_facts(func, lock_attr, shared_attrs, sibling_methods):
                 if depth == 0:
                     regions[0] += 1
                 for st in node.body:
-                    walk(st, depth + 1)
+                    walk(st, depth + 1, stack)
                 return
         if isinstance(node, ast.Attribute) and isinstance(node.value, ast.Name) and node.value.id == "self":
             if node.attr in shared_attrs:
                 accesses.append((node.attr, depth > 0, node.lineno))
             elif node.attr == lock_attr:
                 raise GenError("use of self.%s outside a with-statement in %s" % (lock_attr, func.name))
+            elif node.attr in helpers and not isinstance(getattr(node, "_called", None), bool):
+                # a bound helper method passed around as a value: where it runs is not known
+                raise GenError("helper method self.%s used as a value in %s" % (node.attr, func.name))
         if isinstance(node, ast.Call) and isinstance(node.func, ast.Attribute) and isinstance(node.func.value, ast.Name) \
-                and node.func.value.id == "self" and node.func.attr in sibling_methods:
-            accesses.append(("call:" + node.func.attr, depth > 0, node.lineno))
+                and node.func.value.id == "self":
+            if node.func.attr in sibling_methods:
+                accesses.append(("call:" + node.func.attr, depth > 0, node.lineno))
+            elif node.func.attr in helpers:
+                need(node.func.attr not in stack and len(stack) < 4, "recursive or too deeply nested helper calls in %s" % func.name)
+                node.func._called = True
+                before = regions[0]
+                for st in helpers[node.func.attr].body:
+                    walk(st, depth, stack + [node.func.attr])
+                if depth > 0:
+                    regions[0] = before      # a (re-entrant) region opened by a helper that runs inside a region is not a new one
         for ch in ast.iter_child_nodes(node):
-            walk(ch, depth)
+            walk(ch, depth, stack)
     for st in func.body:
-        walk(st, 0)
+        walk(st, 0, [])
     fully = all(inside for _, inside, _ in accesses) and regions[0] <= 1
     return {"accesses": accesses, "regions": regions[0], "fully_locked": fully}
 
@@ -54,7 +79,9 @@ def gen_locks(tree):
     facts = {}
     for m in NS_METHODS:
         f = find_func(mod, m, "NameServer")
-        facts[m] = lock_facts(f, "lock", {"storage"}, set(NS_METHODS))
+        helpers = {n.name: n for n in cls.body if isinstance(n, (ast.FunctionDef, ast.AsyncFunctionDef))
+                   and n.name not in NS_METHODS and n.name != "__init__"}
+        facts[m] = lock_facts(f, "lock", {"storage"}, set(NS_METHODS), helpers)
     core, _ = parse(tree, "Pyro5/core.py")
     nsname = module_assign(core, "NAMESERVER_NAME")
     need(isinstance(nsname, ast.Constant) and isinstance(nsname.value, str), "NAMESERVER_NAME is not a string literal")
